@@ -16,6 +16,7 @@ import (
 	"sort"
 	"strings"
 	"sync"
+	"sync/atomic"
 	"testing"
 	"testing/synctest"
 	"time"
@@ -1323,6 +1324,8 @@ func c20RunReset(t *testing.T, r *vfRand, pool []c20Key, ids map[string]int, cfg
 		// fault injection on calls made on behalf of ResetCids (armed when the
 		// reset under test starts)
 		armed := false
+		var inTick atomic.Bool // a ticker firing is being processed
+		tickOnly := false
 		if cfg.fault != "" {
 			var kind, key string
 			at := 0
@@ -1331,6 +1334,8 @@ func c20RunReset(t *testing.T, r *vfRand, pool []c20Key, ids map[string]int, cfg
 				kind, key = "put", "/active"
 			case "marker-sync":
 				kind, key = "sync", "/active"
+			case "tickcommit": // the first write of the alternate slot made by a ticker-driven drain of the buffer
+				kind, tickOnly = "commit", true
 			default:
 				fmt.Sscanf(strings.Replace(cfg.fault, ":", " ", 1), "%s %d", &kind, &at)
 			}
@@ -1338,6 +1343,9 @@ func c20RunReset(t *testing.T, r *vfRand, pool []c20Key, ids map[string]int, cfg
 			store.mu.Lock()
 			store.fail = func(a c20Actor, k, ky string) bool {
 				if a.kind != "reset" || !armed || k != kind {
+					return false
+				}
+				if tickOnly && !inTick.Load() {
 					return false
 				}
 				if (key != "") != (ky == "/active") {
@@ -1450,9 +1458,11 @@ func c20RunReset(t *testing.T, r *vfRand, pool []c20Key, ids map[string]int, cfg
 			for i := 0; i < len(nw) && !finished; i++ {
 				opportunity()
 				if r.Chance(cfg.pTick) {
+					inTick.Store(true)
 					time.Sleep(150 * time.Millisecond)
 					out.branches["tick"] = true
 					settle()
+					inTick.Store(false)
 				}
 				if finished {
 					break
@@ -1505,8 +1515,10 @@ func c20RunReset(t *testing.T, r *vfRand, pool []c20Key, ids map[string]int, cfg
 			if !finished {
 				opportunity()
 				if r.Chance(cfg.pTick) {
+					inTick.Store(true)
 					time.Sleep(150 * time.Millisecond)
 					settle()
+					inTick.Store(false)
 				}
 				store.mu.Lock()
 				if tr.batchLen > 0 {
@@ -1793,6 +1805,9 @@ func c20ResetCase(t *testing.T, cs *vfCases, r *vfRand, i int, seed uint64) {
 		cfg.fault = fmt.Sprintf("query:%d", r.Intn(3))
 	case x < 27:
 		cfg.fault = fmt.Sprintf("has:%d", r.Intn(4))
+	case x < 33:
+		cfg.fault = "tickcommit"
+		cfg.pTick, cfg.pPut = 60+r.Intn(41), 60+r.Intn(41)
 	}
 	switch x := r.Intn(100); {
 	case x < 10:
@@ -1810,7 +1825,7 @@ func c20ResetCase(t *testing.T, cs *vfCases, r *vfRand, i int, seed uint64) {
 			cfg.again = []c20Key{}
 		}
 	}
-	// three directed scenarios at fixed case numbers, so that every run meets them
+	// four directed scenarios at fixed case numbers, so that every run meets them
 	switch i {
 	case 2: // the same key put twice between phase B and the final drain
 		k := pool[0]
@@ -1823,6 +1838,11 @@ func c20ResetCase(t *testing.T, cs *vfCases, r *vfRand, i int, seed uint64) {
 		cfg.fault, cfg.cancelAt, cfg.closeAt = "marker-put", -1, -1
 	case 8: // the caller gives up while the worker prepares the alternate slot
 		cfg.fault, cfg.cancelAt, cfg.closeAt = "", 0, -1
+	case 11: // keys arrive slowly, puts are buffered meanwhile, and the write of a ticker-driven drain of that buffer fails
+		cfg.fault, cfg.cancelAt, cfg.closeAt, cfg.pTick, cfg.pPut, cfg.bs = "tickcommit", -1, -1, 100, 100, 64
+		if len(cfg.nw) < 3 {
+			cfg.nw = distinct(4)
+		}
 	}
 
 	out := c20RunReset(t, r, pool, ids, cfg)
